@@ -242,7 +242,29 @@ func (f Func) build(rec *recorder, impl func(args []cty.Value, retType cty.Type)
 			return b
 		}
 	}
-	return function.New(sp)
+	fn := function.New(sp)
+	// What the accessors hand out belongs to the caller: the declared contract
+	// must not follow when a caller edits the parameter descriptions it got
+	// (for example while deriving a more lenient variant of the function).
+	scribbleParams(fn)
+	return fn
+}
+
+// scribbleParams turns every parameter description returned by Params() and
+// VarParam() into the most permissive one.
+func scribbleParams(fn function.Function) {
+	lenient := func(p *function.Parameter) {
+		p.Type = cty.DynamicPseudoType
+		p.AllowNull, p.AllowUnknown, p.AllowDynamicType, p.AllowMarked = true, true, true, true
+		p.Name = "scribbled"
+	}
+	ps := fn.Params()
+	for i := range ps {
+		lenient(&ps[i])
+	}
+	if vp := fn.VarParam(); vp != nil {
+		lenient(vp)
+	}
 }
 
 // ---------------------------------------------------------------- small helpers over cty values
